@@ -139,3 +139,37 @@ Theorem C04_bounded_waiting : forall n s, reach s -> mu s <= n -> want s = true 
              last (snd (run_events true s es)) [] <> [].
 Proof. exact bounded_waiting. Qed.
 Print Assumptions C04_bounded_waiting.
+
+(* ---- the sequential path (n_jobs resolves to 1): Model/ParallelSeq.v, proofs in Proofs/SeqThm.v *)
+Require Import JV.Model.ParallelSeq JV.Proofs.SeqThm.
+
+Theorem C04_seq_path_task_failure_is_raised : forall s cf i, qrunning s = false -> wf_qcfg cf -> qgen cf = false ->
+  qifail cf = None -> qtfail cf = Some i -> i < qN cf ->
+  snd (qstep s (QCall cf)) = [QRaised (ErrTask i)] /\
+  qdelivered (fst (qstep s (QCall cf))) = seq 0 i /\
+  qrunning (fst (qstep s (QCall cf))) = false /\ qiter (fst (qstep s (QCall cf))) = false.
+Proof. exact seq_task_failure_is_raised. Qed.
+Print Assumptions C04_seq_path_task_failure_is_raised.
+
+(* the call always terminates: it returns, or raises an exception of a task / of the input *)
+Theorem C04_seq_path_call_terminates : forall s cf, qrunning s = false -> wf_qcfg cf -> qgen cf = false ->
+  (exists l, snd (qstep s (QCall cf)) = [QReturned l]) \/
+  (exists e, snd (qstep s (QCall cf)) = [QRaised e] /\ e <> ErrAttr).
+Proof. exact seq_list_call_terminates. Qed.
+Print Assumptions C04_seq_path_call_terminates.
+
+Theorem C04_seq_path_generator_failure : forall s s1 e, qreach s -> qstep s QNext = (s1, [QRaised e]) ->
+  (e = ErrTask (length (qdelivered s)) /\ qtfail (qc s) = Some (length (qdelivered s)) \/
+   e = ErrIter /\ qifail (qc s) <> None) /\
+  qalive s1 = false /\ qrunning s1 = false /\ qdelivered s1 = qdelivered s.
+Proof. exact seq_generator_failure. Qed.
+Print Assumptions C04_seq_path_generator_failure.
+
+(* reusable and clean: a call on an idle object behaves as on a fresh object *)
+Theorem C04_seq_path_nothing_left_over : forall s cf, qrunning s = false -> qstep s (QCall cf) = qstep qinit (QCall cf).
+Proof. exact seq_nothing_left_over. Qed.
+Print Assumptions C04_seq_path_nothing_left_over.
+
+Theorem C04_seq_path_idle_when_no_generator : forall s, qreach s -> qalive s = false -> qrunning s = false /\ qiter s = false.
+Proof. exact seq_idle_when_no_generator. Qed.
+Print Assumptions C04_seq_path_idle_when_no_generator.
